@@ -149,7 +149,7 @@ def _skewed(t):
 
 
 def batch_st(elem):
-    big = st.tuples(st.lists(st.text(alphabet=NUC, min_size=1, max_size=30), min_size=1, max_size=5), st.integers(1000, 2000)).map(_big)
+    big = st.tuples(st.lists(st.text(alphabet=NUC, min_size=1, max_size=30), min_size=1, max_size=5), st.one_of(st.integers(1000, 2000), st.sampled_from([64, 128, 256, 512, 1000, 1024, 2000, 2048, 3072, 4096]))).map(_big)
     skewed = st.tuples(st.lists(st.text(alphabet=NUC, min_size=5, max_size=30), min_size=64, max_size=300),
                        st.lists(st.text(alphabet="ACGT", min_size=1500, max_size=6000), min_size=1, max_size=3),
                        st.lists(st.integers(0, 10_000), min_size=3, max_size=3)).map(_skewed)
